@@ -84,6 +84,7 @@ Verdict(e, a, post) ==
 \* ------------------------------------------------------------------ conformance notes (never alarm)
 Notes(e, a, post) ==
   IF e.op = "stuck" THEN <<"goroutines_left_blocked">>
+  ELSE IF e.op = "skipped" THEN <<"call_skipped_goroutine_still_busy">>
   ELSE IF ~ThreadEv(e) THEN <<>>
   ELSE
      (IF e.op = "call" THEN Clause("blocks_exactly_when_the_peer_lock_is_held", (e.arrived = "blocked") = Blocks(a, e.t, CallOfEv(e)))
@@ -96,6 +97,7 @@ Notes(e, a, post) ==
       THEN Clause("debit_below_tolerance_is_recorded", e.traff < Tol => (e.arrived = "gate" /\ e.gate = "put_transfer"))
       ELSE <<>>)
   \o (IF e.op = "release" THEN Clause("release_found_the_goroutine_at_its_gate", e.done) ELSE <<>>)
+  \o Clause("pay_channel_flushed", e.flushed)
   \o Clause("all_idle_as_modelled", e.idle = (\A t \in Threads : post.pc[t] = "idle"))
 
 \* ------------------------------------------------------------------ monitor
